@@ -52,6 +52,26 @@ func init() {
 					Docs:   map[string]*engine.DocCfg{"doc": cfg}, Budget: tierN(tier, 8000, 200000),
 					Narrow: []map[string]*engine.DocCfg{{"doc": narrow}}})
 			}
+			// error messages on opaque documents: the found type must be the Go type of the value
+			for i, p := range samplePaths(dedupPaths(append(append([]Path{}, one...), two...)), tierN(tier, 60, 600), rng) {
+				if p.Funcs || len(p.Steps) == 0 {
+					continue
+				}
+				depth := p.Depth
+				if depth > 2 {
+					depth = 2
+				}
+				cfg := docCfg(depth, 1, []string{"a"}, jsonScalars|opaqueMask())
+				single := "1"
+				for _, s := range p.Steps {
+					if s.Multi {
+						single = "0"
+					}
+				}
+				jobs = append(jobs, &engine.Job{ID: fmt.Sprintf("c20err-%d", i), Harness: "zzH_C15",
+					Params: map[string]string{"path": p.Text, "ast": p.Ast, "texts": p.Texts, "holes": p.Holes, "config": "", "single": single, "opaque": "1"},
+					Docs:   map[string]*engine.DocCfg{"doc": cfg}, MaxPaths: 300000})
+			}
 			return jobs
 		},
 		Bounds: func(tier string) map[string]interface{} {
